@@ -89,3 +89,9 @@ func VerifCountOf(obj any) int {
 	}
 	return -1
 }
+
+// VerifProgramFuncodes returns the compiled functions of a program:
+// the top-level function first, then every nested function.
+func VerifProgramFuncodes(p *Program) []*compile.Funcode {
+	return append([]*compile.Funcode{p.compiled.Toplevel}, p.compiled.Functions...)
+}
